@@ -7,5 +7,6 @@ CONSTANTS
   Formats = {"standard", "unified", "json", "summary"}
   Threads = {1, 4}
   VerifyOpts = {TRUE, FALSE}
+  RangeOpts = {TRUE, FALSE}
 INVARIANT Emit
 CHECK_DEADLOCK FALSE
